@@ -1,5 +1,6 @@
 import Rare.Proofs.C17Gen
 import Rare.Proofs.C17Wf
+import Rare.Proofs.C17Range
 import Rare.Spec.C17Wf
 /-!
 # C17 — array helpers obey list semantics
@@ -372,6 +373,30 @@ theorem range_spec (ctx : Ctx) (sStart sStop sIncr : Stage) (a b c : Bytes) (sta
           subst h3
           simp [Comp.run, h4]
 
+/-- **The documented sequence in closed form.**  The term-by-term progression of `range_spec` is
+    `range start stop incr`: the `rangeCount` terms `start + k·incr`, `k = 0, 1, …` (⌈(stop-start)/incr⌉
+    of them), or "too many" when that count exceeds the limit. -/
+theorem range_closed_form (start stop incr : Int) (h0 : incr ≠ 0) (limit : Nat) :
+    progWhile start stop incr limit 0 =
+      if rangeCount start stop incr ≤ limit then some (range start stop incr) else none :=
+  progWhile_eq_range start stop incr h0 limit
+
+/-- `{@range start stop incr}` with the closed form substituted: `<VALUE>` for a zero or contrary
+    increment, `<INF>` iff ⌈(stop-start)/incr⌉ > `MAX_ITERATIONS`, else exactly the packed decimal
+    renderings of `start, start+incr, …` below (above, for a negative increment) `stop`. -/
+theorem range_spec_closed (ctx : Ctx) (sStart sStop sIncr : Stage) (a b c : Bytes) (start stop incr : Int)
+    (ha : sStart.run ctx = .ok a) (hb : sStop.run ctx = .ok b) (hc : sIncr.run ctx = .ok c)
+    (pa : atoi a = some start) (pb : atoi b = some stop) (pc : atoi c = some incr) :
+    (rangeStage sStart sStop sIncr).run ctx =
+      .ok (if incr = 0 ∨ (incr > 0 ∧ start > stop) ∨ (incr < 0 ∧ start < stop) then ErrorValue
+           else if rangeCount start stop incr ≤ Gen.maxIterations then pack ((range start stop incr).map itoa)
+           else InfMarker) := by
+  rw [range_spec ctx sStart sStop sIncr a b c start stop incr ha hb hc pa pb pc]
+  by_cases h0 : incr = 0
+  · simp [h0]
+  · rw [range_closed_form start stop incr h0]
+    by_cases hl : rangeCount start stop incr ≤ Gen.maxIterations <;> simp [hl]
+
 /-- A non-integer argument gives `<BAD-TYPE>`. -/
 theorem range_bad_type (ctx : Ctx) (sStart sStop sIncr : Stage) (a : Bytes)
     (ha : sStart.run ctx = .ok a) (pa : atoi a = none) :
@@ -642,6 +667,8 @@ example : slice [[97], [98], [99]] (-5) (-1) = [[97], [98], [99]] ∧ slice [[97
 example : iterateWhile (fun _ k => k != 3) (fun v _ => v ++ [97]) 1000000 0 [] = some [[], [97], [97, 97]] := by
   decide
 
+example : rangeCount 3 10 3 = 3 ∧ range 3 10 3 = [3, 6, 9] ∧ rangeCount 10 3 (-3) = 3 ∧ rangeCount 5 5 1 = 0 ∧
+    rangeCount 0 9223372036854775807 1 = 9223372036854775807 := by decide
 /-- The term-by-term progression is the closed form; F10's input stops at the last term below `stop`
     instead of wrapping around. -/
 example : progWhile 3 10 3 100 0 = some (range 3 10 3) ∧ progWhile 10 3 (-3) 100 0 = some [10, 7, 4] ∧
